@@ -124,6 +124,10 @@ class Sys(e2.DevSys):
             acts.append(("ann-start",))
         for i in sorted(self.announced):
             acts.append(("svc-stop", i) if self.announced[i] else ("svc-start", i))
+        # stop and start again with no loop iteration in between (the stopped life's StopOffer is still owed)
+        if self.started:
+            acts.append(("ann-bounce",))
+            acts += [("svc-bounce", i) for i in sorted(self.announced) if self.announced[i]]
         acts += [("connlost",), ("find", 0), ("find", 1)]
         if self.simple is not None:
             acts = [("helper-stop",)] if self.announced[1] else []
@@ -137,6 +141,16 @@ class Sys(e2.DevSys):
         elif act[0] == "ann-start":
             self._set(started=True)
             ann.start()
+        elif act[0] == "ann-bounce":
+            self._set(started=False)
+            ann.stop()
+            self._set(started=True)
+            ann.start()
+        elif act[0] == "svc-bounce":
+            self._set(announced=(act[1], False))
+            ann.stop_announce_service(self.insts[act[1]])
+            self._set(announced=(act[1], True))
+            ann.announce_service(self.insts[act[1]])
         elif act[0] == "svc-stop":
             self._set(announced=(act[1], False))
             ann.stop_announce_service(self.insts[act[1]])
@@ -249,13 +263,14 @@ class Sys(e2.DevSys):
                 if n == 0:
                     continue
                 first = ts + self.d
+                # the previous run's StopOffer (if that run had offered): the first one on the wire from its stop on;
+                # offers that left before it were flushed out of the send queues by that stop and belong to that run
                 prev_stop_seq = None
-                k = 0
+                te_prev = ivs[n - 1][1]
                 for e in mc:
-                    if e[3] == 0:
-                        k += 1
-                        if k == n:
-                            prev_stop_seq = e[1]
+                    if e[3] == 0 and te_prev is not None and te_prev - r_ <= e[0] <= te_prev + cfg["collect"] + r_:
+                        prev_stop_seq = e[1]
+                        break
                 for e in evs:
                     if e[3] == 0 or e[0] >= first - r_ or e[0] < ts - r_:
                         continue
